@@ -58,6 +58,39 @@ func VerifC02_rotate() {
 			panic(err)
 		}
 	}
+	// the round of the query the list moves to (when that is another query): absent, or present in any state the
+	// aggregation step (which runs first) can leave behind: not both expired and holding reports
+	nextIdx := (idx + 1) % uint64(n)
+	list, lerr := k.GetCyclelist(ctx) // store order
+	if lerr != nil {
+		panic(lerr)
+	}
+	nextQd := list[nextIdx]
+	nextId := utils.QueryIDFromData(nextQd)
+	nextHas := false
+	ntip, nexp := math.ZeroInt(), uint64(0)
+	if nextIdx != idx {
+		nextHas = ndBool("nextHasRound")
+		if nextHas {
+			ntip, nexp = ndBigInt("nextTip"), ndUint64("nextExpiration")
+			ndAssume(!ntip.IsNegative())
+			ndAssume(ntip.LT(math.NewInt(1000000)))
+			ndAssume(nexp < 1<<40)
+			nrep := ndBool("nextHasReports")
+			ndAssume(!(nrep && nexp <= uint64(h)))
+			if err := k.Query.Set(ctx, collections.Join(nextId, uint64(7)), types.QueryMeta{Id: 7, Amount: ntip, Expiration: nexp, RegistrySpecBlockWindow: 10, QueryData: nextQd, CycleList: ndBool("nextInCycle"), HasRevealedReports: nrep}); err != nil {
+				panic(err)
+			}
+		}
+	} else if hasRound {
+		// a one-element list moves to the same query: its own round is the round it moves to
+		cm, gerr := k.Query.Get(ctx, collections.Join(curId, uint64(5)))
+		if gerr != nil {
+			panic(gerr)
+		}
+		ndAssume(!(cm.HasRevealedReports && exp <= uint64(h)))
+		nextHas, ntip, nexp = true, cm.Amount, exp
+	}
 	err := k.RotateQueries(bctx)
 	ndAssert(err == nil, "rotate-returns-nil")
 	after, perr := k.CyclelistSequencer.Peek(ctx)
@@ -69,6 +102,18 @@ func VerifC02_rotate() {
 	} else {
 		ndReach("rotated")
 		ndAssert(after == (idx+1)%uint64(n), "rotation-moves-to-the-next-query-wrapping-around")
+		// the query moved to has an open, in-cycle round afterwards, and a tip that no report collected stays with it
+		nm2, nerr := k.CurrentQuery(ctx, nextId)
+		ndAssert(nerr == nil, "the-query-moved-to-has-a-round")
+		if nerr == nil {
+			ndAssert(nm2.Amount.Equal(ntip), "an-uncollected-tip-stays-with-the-query")
+			if nextHas && ntip.IsPositive() {
+				ndAssert(nm2.CycleList && nm2.Expiration > uint64(h), "tipped-round-is-in-the-cycle-and-open")
+			}
+			if !nextHas || (ntip.IsZero() && nexp < uint64(h)) {
+				ndAssert(nm2.CycleList && nm2.Expiration == uint64(h)+10, "fresh-round-opens-for-the-window")
+			}
+		}
 	}
 }
 
